@@ -32,6 +32,12 @@ def box(name, N):
         lows = [-1.0, 0.0, -2.0, 1.0, -3.0]
         ups = [1.0, 4.0, 2.0, 2.0, 3.0]
         return lows[:N], ups[:N]
+    if name == "F":       # first and last side equal, the ones in between different
+        lows = [0.0, -1.0, 0.0, -1.0, 0.0]
+        ups = [2.0, 0.5, 2.0, 0.5, 2.0]
+        if N == 4:
+            lows, ups = [0.0, -1.0, 3.0, 0.0], [2.0, 0.5, 3.25, 2.0]
+        return lows[:N], ups[:N]
     if name == "E":       # equal side lengths, different offsets per axis (a "cube" only by its widths)
         return [2.0 * i for i in range(N)], [2.0 * i + 1.0 for i in range(N)]
     if name == "D":       # bounds that are not ascending over the coordinates, very different lower bounds
@@ -181,7 +187,7 @@ class Snapshot:
 class SolverRun:
     def __init__(self, N=1, lower=None, upper=None, r=2.0, eps=0.01, itersLimit=20000, answer=None,
                  density=None, refine=False, listeners=(), problem=None, fresh_holder=False, other=None,
-                 int_bounds=False, constraints=0, probe=False):
+                 int_bounds=False, constraints=0, probe=False, start_point=False):
         lower = [0.0] * N if lower is None else lower
         upper = [1.0] * N if upper is None else upper
         self.N = N
@@ -191,6 +197,12 @@ class SolverRun:
         kw = dict(eps=eps, r=r, itersLimit=itersLimit, refineSolution=refine)
         if density is not None:
             kw["evolventDensity"] = density
+        if start_point:
+            # SolverParameters.startPoint: a user-supplied start point (not a cell centre); the first trial of the method is
+            # the image of x = 0.5 by the statement of C02 whatever this is
+            from iOpt.trial import Point
+            lo_ = np.array(lower, dtype=float)
+            kw["startPoint"] = Point(lo_ + (np.array(upper, dtype=float) - lo_) * 0.3137, [])
         self.params = SolverParameters(**kw)
         self.density = density if density is not None else 10
         self.out = ""
